@@ -43,7 +43,8 @@ def run(module: str, cfg: str, *, label: str = "", env: dict = None, workers="au
     work.mkdir(parents=True, exist_ok=True)
     cfg_path = work / f"{module}.cfg"
     cfg_path.write_text(cfg)
-    cmd = ["timeout", "-k", "5", str(timeout), "java", "-XX:+UseParallelGC", f"-Xmx{heap}"]
+    (work / "jtmp").mkdir(exist_ok=True)       # TLC / SANY unpack their standard modules into java.io.tmpdir: keep that in the scratch
+    cmd = ["timeout", "-k", "5", str(timeout), "java", "-XX:+UseParallelGC", f"-Xmx{heap}", f"-Djava.io.tmpdir={work}/jtmp"]
     if dfs:
         cmd.append("-Dtlc2.tool.queue.IStateQueue=StateDeque")
     cmd += ["-cp", JAVA_CP, "tlc2.TLC", "-metadir", str(work / "meta"), "-noGenerateSpecTE",
